@@ -15,7 +15,7 @@ import (
 func init() {
 	Register(&Property{
 		ID: "C15",
-		Explanation: "Decides five structural necessary conditions of 'every check terminates, honours cancellation and releases its goroutines': (R15.1) every function of type checkgroup.CheckFunc delivers exactly one result on its result channel on every path to return; (R15.2) no goroutine can be left blocked on a send because its receiver may walk away (channel capacity vs select-with-ctx.Done receivers; synchronous senders need capacity); (R15.3) the checkgroup consumer's counted drain, cancel and close(doneCh) run on every exit; (R15.4) every blocking channel operation in check/checkgroup is in a cancellable class; (R15.6) every lock taken on the check path (visited set, check group, configuration, registry) is released on every path to a return; (R15.5) every recursive cycle among the engine functions carries a lexicographic (depth, AST node) decreasing measure and a depth guard. " +
+		Explanation: "Decides five structural necessary conditions of 'every check terminates, honours cancellation and releases its goroutines': (R15.1) every function of type checkgroup.CheckFunc delivers exactly one result on its result channel on every path to return; (R15.2) no goroutine can be left blocked on a send because its receiver may walk away (channel capacity vs select-with-ctx.Done receivers; synchronous senders need capacity); (R15.3) the checkgroup consumer's counted drain, cancel and close(doneCh) run on every exit; (R15.4) every blocking channel operation in check/checkgroup is in a cancellable class; (R15.7) the traversal's internal paging advances (cursor column selected, strict '>', continuation from the last row) and the engine's page loops feed the returned token forward, so no page is fetched forever; (R15.6) every lock taken on the check path (visited set, check group, configuration, registry) is released on every path to a return; (R15.5) every recursive cycle among the engine functions carries a lexicographic (depth, AST node) decreasing measure and a depth guard. " +
 			"Not decided: the quantitative bound on the number of storage operations (pagination of tuple-to-subject-set and traversal are run-time quantities), promptness in wall-clock time.",
 		Assumptions: []string{
 			"go/ssa CFG is faithful; select lowering as documented by x/tools",
@@ -65,6 +65,8 @@ func runC15(c *Ctx) {
 	r155(c)
 	// R15.6 no lock on the check path is left held on an exit: a blocked Lock() cannot be cancelled
 	lockPairing(c, "R15.6", []string{"internal/x/graph", "internal/check", "internal/check/checkgroup", "internal/driver/config", "internal/driver", "internal/relationtuple", "internal/persistence/sql"})
+	// R15.7 the page loops of the storage layer make progress: cursor/ORDER BY/LIMIT agreement of the traversal (the C07 rule)
+	c.R.SubRun(func() { runC07(c) }, map[string]string{"R07.2": "R15.7", "R07.5": "R15.7"})
 }
 
 // ---- R15.1 exactly-once delivery ---------------------------------------------------
